@@ -63,12 +63,12 @@ theorem Subscribe.fold_subID : ∀ (ps : List PropOcc) (p : Subscribe),
     unfold Subscribe.applyOcc
     cases o.val <;> simp only [] <;> (repeat' split) <;> rfl
 
-theorem D_subscribe (pid : UInt16) (ps : List PropOcc) (filters : List (Bytes × UInt8))
-    (hl : (SPacket.subscribe pid ps filters).Legal) :
+theorem D_subscribe_L (pid : UInt16) (ps : List PropOcc) (filters : List (Bytes × UInt8))
+    (hl : (SPacket.subscribe pid ps filters).LegalL) :
     ∃ q, frameOutcome 0x82 (SPacket.subscribe pid ps filters).body = .pkt (.subscribe q)
       ∧ (Packet.subscribe q).view = (SPacket.subscribe pid ps filters).view := by
   obtain ⟨hleg, hlen⟩ := hl
-  simp only [SPacket.legal, Bool.and_eq_true] at hleg
+  simp only [SPacket.legalL, Bool.and_eq_true] at hleg
   obtain ⟨⟨hps, hne⟩, hfs⟩ := hleg
   have hdisp : Packet.dispatch 0x82 = .subscribe { fixed := 0x82 } := by decide
   simp only [SPacket.body] at hlen ⊢
@@ -84,8 +84,7 @@ theorem D_subscribe (pid : UInt16) (ps : List PropOcc) (filters : List (Bytes ×
     have hstr : ∀ g ∈ f :: t, g.1.length < 65536 := by
       intro g hg
       have := (List.all_eq_true.mp hfs) g hg
-      simp only [Bool.and_eq_true, SPacket.strOK, decide_eq_true_eq] at this
-      exact this.1.1.1
+      simpa [SPacket.strOK] using this
     have hfl := Subscribe.filterLoop_enc t f (ps.foldl Subscribe.applyOcc { fixed := 0x82, packetID := pid }).filters
       ((encU16 pid ++ (Spec.propSection ps ++ (f :: t).flatMap fun f => encBin f.1 ++ [f.2])).length + 1) hstr
       (by
@@ -115,6 +114,16 @@ theorem D_subscribe (pid : UInt16) (ps : List PropOcc) (filters : List (Bytes ×
     cases (ps.foldl (fun cur o => match o.val with
           | .vb n => if o.id = 0x0b then some n else cur
           | _ => cur) (none : Option Nat)) <;> simp [hmap]
+
+theorem D_subscribe (pid : UInt16) (ps : List PropOcc) (filters : List (Bytes × UInt8))
+    (hl : (SPacket.subscribe pid ps filters).Legal) :
+    ∃ q, frameOutcome 0x82 (SPacket.subscribe pid ps filters).body = .pkt (.subscribe q)
+      ∧ (Packet.subscribe q).view = (SPacket.subscribe pid ps filters).view := by
+  apply D_subscribe_L pid ps filters
+  obtain ⟨hleg, hlen⟩ := hl
+  refine ⟨?_, hlen⟩
+  simp only [SPacket.legal, SPacket.legalL, Bool.and_eq_true, List.all_eq_true] at hleg ⊢
+  exact ⟨hleg.1, fun f hf => (hleg.2 f hf).1.1.1⟩
 
 theorem Unsubscribe.filterLoop_enc : ∀ (t : List Bytes) (f : Bytes) (acc : List Bytes) (fuel : Nat),
     (∀ g ∈ f :: t, g.length < 65536) → t.length < fuel →
